@@ -20,6 +20,28 @@ def kind_of(seq):
     return type(seq[-1]).__name__
 
 
+def pre_transform(nl, kind, res):
+    """the netlist the queries run on may itself be the product of another feature"""
+    import spydrnet.uniquify as U
+
+    try:
+        if kind == "clone":
+            nl = nl.clone()
+        elif kind == "uniquify":
+            U.MOD_NAME_UID = 0
+            U.uniquify(nl)
+        elif kind == "clone+uniquify":
+            nl = nl.clone()
+            U.MOD_NAME_UID = 0
+            U.uniquify(nl)
+        else:
+            return nl
+        res.label("netlist-is-product-of-" + kind)
+    except Exception:  # noqa (C07/C08 decide the transforms)
+        res.label("pre-transform-raised")
+    return nl
+
+
 class C11(Prop):
     ID = "C11"
     RULE = ("design recipes (shared definitions at several depths, leaf and wire-only cells, unnamed "
@@ -47,7 +69,9 @@ class C11(Prop):
         step = ops.op_strategy(EDIT_WEIGHTS)
         return st.fixed_dictionaries({"design": gen_ir.recipes(self.cfg(tier)),
                                       "edits": st.lists(step, min_size=1, max_size=4),
-                                      "sample": st.integers(0, 50)})
+                                      "sample": st.integers(0, 50),
+                                      "pre": st.sampled_from(["none", "none", "none", "clone", "uniquify",
+                                                              "clone+uniquify"])})
 
     def fixed_cases(self, tier):
         return gen_ir.example_cases(tier, quick_limit=4000, thorough_limit=9000)
@@ -65,6 +89,8 @@ class C11(Prop):
             case = dict(case, edits=[], sample=0)
         else:
             nl = gen_ir.build(case["design"]).netlist
+            if nl.top_instance is not None and nl.top_instance.reference is not None:
+                nl = pre_transform(nl, case.get("pre", "none"), res)
         M = HModel(nl)
         depth2 = Counter(id(p[-1]) for p in M.paths if len(p) >= 3)
         if any(v >= 2 for v in depth2.values()):
